@@ -697,8 +697,13 @@ struct G
             d.tags = {t};
             std::string r = cfg.shadowing && rng.chance(0.4) ? "gi0" : "r";
             os << "void " << n << "(int &" << r << ") {\n  " << r << " = " << t << ";\n";
-            if (rng.chance(0.5))
-                os << "  if (" << r << " > 3) { " << r << "--; } else " << r << "++;\n";
+            if (rng.chance(0.5)) {
+                // a tagged statement in each branch: a lost else branch takes its tag with it
+                const int ta = tag(), tb = tag();
+                d.tags.push_back(ta);
+                d.tags.push_back(tb);
+                os << "  if (" << r << " > 3) { " << r << " -= " << ta << "; } else " << r << " += " << tb << ";\n";
+            }
             {
                 const int t2 = tag();
                 d.tags.push_back(t2);
@@ -869,6 +874,9 @@ struct G
                 l.name = std::string{pool[name_style]} + std::to_string(i);
                 if (i == 0 && rng.chance(0.004))
                     l.name = std::string(rng.chance(0.5) ? 4000 : 3999, 'N');
+                // the one name the XML writer treats specially (it colours that location)
+                if (i == nlocs - 1 && rng.chance(0.06))
+                    l.name = "Err";
             }
             if (rng.chance(cfg.p_label * 0.7))
                 l.inv = label(invariant(sc));
@@ -945,6 +953,13 @@ struct G
                 }
                 if (rng.chance(cfg.p_label))
                     e.guard = label(guard(esc, !urgent));
+                // rarely a label of several hundred bytes (buffers sized for ordinary labels)
+                if (e.guard.present() && rng.chance(0.02)) {
+                    std::string sum = "1";
+                    for (int k = rng.range(120, 400); k > 0; --k)
+                        sum += " + 1";
+                    e.guard.text += " && (" + sum + ") > 0";
+                }
             }
             if (rng.chance(cfg.p_label)) {
                 E u = update(esc);
@@ -1096,6 +1111,28 @@ struct G
             t.locs.push_back(l);
             m.templs.push_back(t);
             m.system.push_back(t.name);
+        }
+        // a quantified invariant over the rates and bounds of a clock array (the type checker splits it into the
+        // invariant proper and the rate part, conjunct by conjunct)
+        if (rng.chance(0.06)) {
+            std::vector<MLoc*> free_locs;
+            for (auto& t : m.templs)
+                if (!t.dynamic)
+                    for (auto& l : t.locs)
+                        if (!l.inv.present())
+                            free_locs.push_back(&l);
+            if (!free_locs.empty()) {
+                MDecl ca;
+                ca.kind = MDecl::VAR;
+                ca.name = "zxa";
+                ca.dims = 1;
+                ca.text = "clock zxa[2];";
+                m.gdecls.push_back(ca);
+                MLoc* l = free_locs[rng.below((uint32_t)free_locs.size())];
+                const int t1 = tag();
+                l->inv.text = std::string{"forall (zi : int[0,1]) (zxa[zi]' == 0 && zxa[zi] "} + (rng.chance(0.5) ? "<" : "<=") + " " + std::to_string(t1) + ")";
+                l->inv.tags = {t1};
+            }
         }
         // a variable declared in the system block whose type name means something else inside the last template: in the
         // .xta rendering that type name is the very first token after the closing brace of that process
